@@ -78,84 +78,84 @@ Viol(pre, a, r, post, O1, O2, diff) ==
       UpgOk == IsUpg /\ r = "ok" /\ HasT
   IN
   \* ======== C20 consensus states are never overwritten ===================================================
-     Flag("C20", "stored-consensus-state-changed-or-removed-unexpired",
+     Flag("C20", "cons-state-changed-or-lost",
           \E i \in TMs : \E h \in DOMAIN pre.cl[i].cons :
              ~( \/ (h \in DOMAIN post.cl[i].cons /\ post.cl[i].cons[h] = pre.cl[i].cons[h])
                 \/ (h \notin DOMAIN post.cl[i].cons /\ Expired(pre.cl[i].cons[h].ts, pre.cl[i].par.tp, t)) ))
-  \cup Flag("C20", "duplicate-header-changed-state",
+  \cup Flag("C20", "duplicate-changed-state",
           UpdOk /\ WasStored /\ c.cons[hd.h] = HdrCons(hd)
           /\ ~(/\ NowStored /\ c2.cons[hd.h] = c.cons[hd.h] /\ c2.frozen = c.frozen /\ c2.latest = c.latest
                /\ hd.h \in DOMAIN c2.pt /\ c2.pt[hd.h] = c.pt[hd.h] /\ hd.h \in DOMAIN c2.ph /\ c2.ph[hd.h] = c.ph[hd.h]))
-  \cup Flag("C20", "conflicting-header-did-not-freeze",
+  \cup Flag("C20", "conflict-did-not-freeze",
           UpdOk /\ WasStored /\ c.cons[hd.h] # HdrCons(hd) /\ ~(c2.frozen /\ NowStored /\ c2.cons[hd.h] = c.cons[hd.h]))
-  \cup Flag("C20", "valid-misbehaviour-did-not-freeze",
+  \cup Flag("C20", "misbehaviour-did-not-freeze",
           IsMisb /\ r = "ok" /\ Conflict(m1, m2) /\ ~(c2.frozen /\ c2.cons = c.cons))
-  \cup Flag("C20", "update-wrote-other-than-the-submitted-consensus-state",
+  \cup Flag("C20", "wrote-other-cons-state",
           UpdOk /\ ~(/\ (DOMAIN c2.cons) \ (DOMAIN c.cons) \subseteq {hd.h}
                      /\ (~WasStored /\ NowStored => c2.cons[hd.h] = HdrCons(hd))))
-  \cup Flag("C20", "consensus-state-appeared-without-update",
+  \cup Flag("C20", "cons-state-without-update",
           \E i \in TMs : (DOMAIN post.cl[i].cons) \ (DOMAIN pre.cl[i].cons) # {}
                          /\ ~(r = "ok" /\ i = i0 /\ a.a \in {"Update", "Recover", "Upgrade"}))
   \* ======== C22 metadata consistent and ordered ============================================================
   \cup Flag("C22", "metadata-domains-differ", \E i \in 1..n2 : post.cl[i].type = "07" /\ ~I_MetaDomains(post.cl[i]))
-  \cup Flag("C22", "iteration-not-in-height-order",
+  \cup Flag("C22", "iteration-out-of-order",
           \E i \in 1..n2 : post.cl[i].type = "07" /\
              LET s == O2[i].iter IN \E k \in 1..(Len(s) - 1) : ~HLT(s[k], s[k + 1]))
-  \cup Flag("C22", "iteration-key-points-elsewhere",
+  \cup Flag("C22", "iteration-key-mispointed",
           \E i \in 1..n2 : post.cl[i].type = "07" /\ O2[i].itv # O2[i].iter)
-  \cup Flag("C22", "stray-key-in-client-store", \E i \in 1..n2 : post.cl[i].type = "07" /\ O2[i].stray # <<>>)
-  \cup Flag("C22", "next-consensus-state-lookup-wrong",
+  \cup Flag("C22", "stray-key", \E i \in 1..n2 : post.cl[i].type = "07" /\ O2[i].stray # <<>>)
+  \cup Flag("C22", "next-lookup-wrong",
           \E i \in 1..n2 : post.cl[i].type = "07" /\
              \E k \in DOMAIN O2[i].nx : O2[i].nx[k].v # NextCS(post.cl[i], O2[i].nx[k].k))
-  \cup Flag("C22", "previous-consensus-state-lookup-wrong",
+  \cup Flag("C22", "prev-lookup-wrong",
           \E i \in 1..n2 : post.cl[i].type = "07" /\
              \E k \in DOMAIN O2[i].pv : O2[i].pv[k].v # PrevCS(post.cl[i], O2[i].pv[k].k))
-  \cup Flag("C22", "removed-other-than-oldest-expired-by-update",
+  \cup Flag("C22", "pruned-not-oldest-expired",
           \E i \in TMs : LET gone == (DOMAIN pre.cl[i].cons) \ (DOMAIN post.cl[i].cons) IN
              gone # {} /\ ~(/\ UpdOk /\ i = i0
                             /\ gone = {HMin(DOMAIN pre.cl[i].cons)}
                             /\ Expired(pre.cl[i].cons[HMin(DOMAIN pre.cl[i].cons)].ts, pre.cl[i].par.tp, t)))
-  \cup Flag("C22", "processed-time-or-height-wrong",
+  \cup Flag("C22", "processed-values-wrong",
           \/ (UpdOk /\ ~WasStored /\ NowStored /\ hd.h \in DOMAIN c2.pt /\ hd.h \in DOMAIN c2.ph
                     /\ ~(c2.pt[hd.h] = t /\ c2.ph[hd.h] = pre.hh + 1))
           \/ (a.a = "Create" /\ r = "ok" /\ n2 = n1 + 1
                     /\ ~(LET k == post.cl[n2] IN a.h \in DOMAIN k.pt /\ a.h \in DOMAIN k.ph /\ k.pt[a.h] = t /\ k.ph[a.h] = pre.hh + 1)))
-  \cup Flag("C22", "metadata-of-kept-state-changed",
+  \cup Flag("C22", "kept-metadata-changed",
           \E i \in TMs : \E h \in (DOMAIN pre.cl[i].cons) \cap (DOMAIN post.cl[i].cons) :
              h \in DOMAIN pre.cl[i].pt /\ h \in DOMAIN pre.cl[i].ph /\ h \in DOMAIN post.cl[i].pt /\ h \in DOMAIN post.cl[i].ph
              /\ ~(post.cl[i].pt[h] = pre.cl[i].pt[h] /\ post.cl[i].ph[h] = pre.cl[i].ph[h]))
   \* ======== C23 timestamps increase with height ============================================================
-  \cup Flag("C23", "stored-time-not-strictly-between-neighbours",
+  \cup Flag("C23", "time-not-between-neighbours",
           UpdOk /\ ~WasStored /\ NowStored /\ ~(TimeFits(c, hd.h, c2.cons[hd.h].ts) /\ TimeFits(c2, hd.h, c2.cons[hd.h].ts)))
-  \cup Flag("C23", "time-violation-did-not-freeze",
+  \cup Flag("C23", "time-violation-not-frozen",
           UpdOk /\ ~WasStored /\ ~TimeFits(c, hd.h, hd.ts) /\ ~(c2.frozen /\ ~NowStored))
   \* ======== C24 accepted only when verified ================================================================
-  \cup Flag("C24", "accepted:trusted-height-not-stored",   UpdOk /\ ~G_TrustedStored(c, hd))
-  \cup Flag("C24", "accepted:trusted-validators-mismatch", UpdOk /\ ~G_TrustedVals(c, hd))
-  \cup Flag("C24", "accepted:other-revision",              UpdOk /\ ~G_SameRevision(hd))
-  \cup Flag("C24", "accepted:height-not-above-trusted",    UpdOk /\ ~G_HeightAbove(hd))
-  \cup Flag("C24", "accepted:trusted-state-expired",       UpdOk /\ ~G_TrustedFresh(c, hd, t))
-  \cup Flag("C24", "accepted:time-not-after-trusted",      UpdOk /\ ~G_TimeAfterTrusted(c, hd))
-  \cup Flag("C24", "accepted:time-beyond-clock-drift",     UpdOk /\ ~G_TimeNotFuture(c, hd, t))
-  \cup Flag("C24", "accepted:wrong-chain-id",              UpdOk /\ ~G_ChainId(c, hd))
-  \cup Flag("C24", "accepted:broken-signature-or-valset-hash", UpdOk /\ ~G_Integrity(hd))
-  \cup Flag("C24", "accepted:own-power-not-above-two-thirds",  UpdOk /\ ~G_OwnPower(hd))
-  \cup Flag("C24", "accepted:trusted-power-below-trust-level", UpdOk /\ ~G_TrustPower(c, hd))
-  \cup Flag("C24", "rejected-update-changed-state", a.a = "Update" /\ Rejected /\ ~AllSame)
-  \cup Flag("C24", "update-changed-another-client", a.a = "Update" /\ r = "ok" /\ ~OnlySubject)
-  \cup Flag("C24", "misbehaviour-accepted:header1-unverified", IsMisb /\ r = "ok" /\ ~(MisbShape(m1, m2) /\ MisbHeaderOK(c, m1, t)))
-  \cup Flag("C24", "misbehaviour-accepted:header2-unverified", IsMisb /\ r = "ok" /\ ~(MisbShape(m1, m2) /\ MisbHeaderOK(c, m2, t)))
-  \cup Flag("C24", "misbehaviour-froze-without-conflict", IsMisb /\ r = "ok" /\ ~Conflict(m1, m2) /\ ~Same(i0))
-  \cup Flag("C24", "rejected-misbehaviour-changed-state", a.a = "Misb" /\ Rejected /\ ~AllSame)
-  \cup Flag("C24", "misbehaviour-changed-another-client", a.a = "Misb" /\ r = "ok" /\ ~OnlySubject)
+  \cup Flag("C24", "ok:trusted-not-stored",   UpdOk /\ ~G_TrustedStored(c, hd))
+  \cup Flag("C24", "ok:trusted-vals-mismatch", UpdOk /\ ~G_TrustedVals(c, hd))
+  \cup Flag("C24", "ok:other-revision",              UpdOk /\ ~G_SameRevision(hd))
+  \cup Flag("C24", "ok:height-not-above",    UpdOk /\ ~G_HeightAbove(hd))
+  \cup Flag("C24", "ok:trusted-expired",       UpdOk /\ ~G_TrustedFresh(c, hd, t))
+  \cup Flag("C24", "ok:time-not-after-trusted",      UpdOk /\ ~G_TimeAfterTrusted(c, hd))
+  \cup Flag("C24", "ok:time-beyond-drift",     UpdOk /\ ~G_TimeNotFuture(c, hd, t))
+  \cup Flag("C24", "ok:wrong-chain-id",              UpdOk /\ ~G_ChainId(c, hd))
+  \cup Flag("C24", "ok:bad-sig-or-valset-hash", UpdOk /\ ~G_Integrity(hd))
+  \cup Flag("C24", "ok:own-power-low",  UpdOk /\ ~G_OwnPower(hd))
+  \cup Flag("C24", "ok:trust-power-low", UpdOk /\ ~G_TrustPower(c, hd))
+  \cup Flag("C24", "rejected-update-changed", a.a = "Update" /\ Rejected /\ ~AllSame)
+  \cup Flag("C24", "update-changed-other", a.a = "Update" /\ r = "ok" /\ ~OnlySubject)
+  \cup Flag("C24", "misb-ok:h1-unverified", IsMisb /\ r = "ok" /\ ~(MisbShape(m1, m2) /\ MisbHeaderOK(c, m1, t)))
+  \cup Flag("C24", "misb-ok:h2-unverified", IsMisb /\ r = "ok" /\ ~(MisbShape(m1, m2) /\ MisbHeaderOK(c, m2, t)))
+  \cup Flag("C24", "misb-froze-no-conflict", IsMisb /\ r = "ok" /\ ~Conflict(m1, m2) /\ ~Same(i0))
+  \cup Flag("C24", "rejected-misb-changed", a.a = "Misb" /\ Rejected /\ ~AllSame)
+  \cup Flag("C24", "misb-changed-other", a.a = "Misb" /\ r = "ok" /\ ~OnlySubject)
   \cup Flag("C24", "frozen-without-evidence",
           \E i \in TMs : ~pre.cl[i].frozen /\ post.cl[i].frozen /\ ~(r = "ok" /\ i = i0 /\ a.a \in {"Update", "Misb"}))
   \* ======== C25 recover / upgrade gated, subject only ======================================================
-  \cup Flag("C25", "recover-accepted:subject-active",       RecOk /\ ~G_RecSubjectNotActive(pre, a, t))
-  \cup Flag("C25", "recover-accepted:substitute-not-active", RecOk /\ ~G_RecSubstituteActive(pre, a, t))
-  \cup Flag("C25", "recover-accepted:height-not-greater",   RecOk /\ ~G_RecHeight(pre, a))
-  \cup Flag("C25", "recover-accepted:different-type",       RecOk /\ ~G_RecSameType(pre, a))
-  \cup Flag("C25", "recover-accepted:parameters-differ",    RecOk /\ ~G_RecParams(pre, a))
+  \cup Flag("C25", "rec-ok:subject-active",       RecOk /\ ~G_RecSubjectNotActive(pre, a, t))
+  \cup Flag("C25", "rec-ok:substitute-inactive", RecOk /\ ~G_RecSubstituteActive(pre, a, t))
+  \cup Flag("C25", "rec-ok:height-not-greater",   RecOk /\ ~G_RecHeight(pre, a))
+  \cup Flag("C25", "rec-ok:type-differs",       RecOk /\ ~G_RecSameType(pre, a))
+  \cup Flag("C25", "rec-ok:params-differ",    RecOk /\ ~G_RecParams(pre, a))
   \cup Flag("C25", "recover-effect",
           RecOk /\ HasT /\ Exists(pre, a.sub) /\ sub.latest \in DOMAIN sub.cons /\ sub.latest \in DOMAIN sub.pt /\ sub.latest \in DOMAIN sub.ph
           /\ ~(/\ ~c2.frozen /\ c2.latest = sub.latest
@@ -164,12 +164,12 @@ Viol(pre, a, r, post, O1, O2, diff) ==
                /\ sub.latest \in DOMAIN c2.ph /\ c2.ph[sub.latest] = sub.ph[sub.latest]
                /\ ParamsMatch(c2.par, c.par) /\ c2.par.tp = sub.par.tp
                /\ \A h \in DOMAIN c.cons : h \in DOMAIN c2.cons))
-  \cup Flag("C25", "recover-changed-another-client", RecOk /\ ~OnlySubject)
-  \cup Flag("C25", "rejected-recover-changed-state", IsRec /\ Rejected /\ ~AllSame)
-  \cup Flag("C25", "upgrade-accepted:client-not-active",    UpgOk /\ ~G_UpgActive(c, t))
-  \cup Flag("C25", "upgrade-accepted:height-not-greater",   UpgOk /\ ~G_UpgHeight(c, a))
-  \cup Flag("C25", "upgrade-accepted:unproven",             UpgOk /\ ~G_UpgProofs(c, a))
-  \cup Flag("C25", "upgrade-accepted:for-non-tendermint",   IsUpg /\ r = "ok" /\ ~HasT)
+  \cup Flag("C25", "recover-changed-other", RecOk /\ ~OnlySubject)
+  \cup Flag("C25", "rejected-recover-changed", IsRec /\ Rejected /\ ~AllSame)
+  \cup Flag("C25", "upg-ok:not-active",    UpgOk /\ ~G_UpgActive(c, t))
+  \cup Flag("C25", "upg-ok:height-not-greater",   UpgOk /\ ~G_UpgHeight(c, a))
+  \cup Flag("C25", "upg-ok:unproven",             UpgOk /\ ~G_UpgProofs(c, a))
+  \cup Flag("C25", "upg-ok:not-tendermint",   IsUpg /\ r = "ok" /\ ~HasT)
   \cup Flag("C25", "upgrade-effect",
           UpgOk /\ a.v \in PlanVariants
           /\ ~(/\ c2.par.lvl = c.par.lvl /\ c2.par.drift = c.par.drift
@@ -178,17 +178,17 @@ Viol(pre, a, r, post, O1, O2, diff) ==
                /\ PlanNL(a.v) \in DOMAIN c2.cons
                /\ c2.cons[PlanNL(a.v)] = [ts |-> LatestRoot(c).ts, root |-> Sentinel, nv |-> "V"]
                /\ \A h \in DOMAIN c.cons : h \in DOMAIN c2.cons))
-  \cup Flag("C25", "upgrade-changed-another-client", IsUpg /\ r = "ok" /\ ~OnlySubject)
-  \cup Flag("C25", "rejected-upgrade-changed-state", IsUpg /\ Rejected /\ ~AllSame)
-  \cup Flag("C25", "unfrozen-without-recovery",
+  \cup Flag("C25", "upgrade-changed-other", IsUpg /\ r = "ok" /\ ~OnlySubject)
+  \cup Flag("C25", "rejected-upgrade-changed", IsUpg /\ Rejected /\ ~AllSame)
+  \cup Flag("C25", "unfrozen-without-recover",
           \E i \in TMs : pre.cl[i].frozen /\ ~post.cl[i].frozen /\ ~(RecOk /\ i = i0))
-  \cup Flag("C25", "parameters-changed-without-recover-or-upgrade",
+  \cup Flag("C25", "params-changed",
           \E i \in TMs : post.cl[i].par # pre.cl[i].par /\ ~(r = "ok" /\ i = i0 /\ a.a \in {"Recover", "Upgrade"}))
   \* ======== C21 (diagnostics for the packet family's property) ==============================================
   \cup Flag("C21", "status-exact", \E i \in 1..n2 : O2[i].status # Status(post.cl[i], post.now))
   \cup Flag("C21", "latest-height-monotone", \E i \in 1..n1 : i <= n2 /\ ~HLE(pre.cl[i].latest, post.cl[i].latest))
   \cup Flag("C21", "latest-height-query", \E i \in 1..n2 : O2[i].llat # post.cl[i].latest)
-  \cup Flag("C21", "latest-is-not-the-maximum", \E i \in 1..n2 : post.cl[i].type = "07" /\ ~I_LatestIsMax(post.cl[i]))
+  \cup Flag("C21", "latest-not-maximum", \E i \in 1..n2 : post.cl[i].type = "07" /\ ~I_LatestIsMax(post.cl[i]))
   \cup Flag("C21", "status-gates-use", (UpdOk \/ (IsMisb /\ r = "ok") \/ UpgOk) /\ Status(c, t) # "Active")
   \* ======== full conformance (diagnostic) ===================================================================
   \cup Flag("CONF", a.a \o ":" \o E.res \o "/" \o r, ~(E.res = (IF r = "ok" THEN "ok" ELSE "err") /\ E.S = post))
